@@ -47,6 +47,11 @@ ARCH = {
     'probe-stall': {'kex': ['curve25519-sha256'], 'key': ['ssh-rsa', 'ssh-ed25519'], 'hostkeys': dict(rsa_hk(2048), **HK_ED), 'faults': [['kexdh_reply', 1, 'stall']]},          # the RSA probe never gets its reply
     'probe-noreply': {'kex': ['curve25519-sha256'], 'key': ['ssh-rsa', 'ssh-ed25519'], 'hostkeys': HK_ED},                                                                 # the server hangs up on the RSA probe
     'rsa1024-abort': {'kex': ['curve25519-sha256'], 'key': ['ssh-rsa', 'ssh-ed25519'], 'hostkeys': dict(rsa_hk(1024), **HK_ED), 'faults': [['kexinit', 2, ['set_len', 0x1235]]]},  # earns a note, then a bad packet ends the scan
+    # banners that differ from one another only in what a sanitiser, a tokeniser or a version parser throws away
+    'banner-ctrl':  {'banner': 'SSH-2.0-OpenSSH_9.3 build\x01one', 'kex': ['curve25519-sha256'], 'key': ['ssh-ed25519'], 'hostkeys': HK_ED},
+    'banner-qmark': {'banner': 'SSH-2.0-OpenSSH_9.3 build?one', 'kex': ['curve25519-sha256'], 'key': ['ssh-ed25519'], 'hostkeys': HK_ED},
+    'banner-199':   {'banner': 'SSH-1.99-OpenSSH_9.3', 'kex': ['curve25519-sha256'], 'key': ['ssh-ed25519'], 'hostkeys': HK_ED},
+    'banner-p1':    {'banner': 'SSH-2.0-OpenSSH_9.3p1 build?one', 'kex': ['curve25519-sha256'], 'key': ['ssh-ed25519'], 'hostkeys': HK_ED},
     'ssh1':       {'proto': 1},
     'refuse':     None,
 }
@@ -63,20 +68,26 @@ _solo_cache = {}
 OOB_LINES = ('[exception] invalid ssh packet (block size)', '[exception] packet checksum CRC32 mismatch.')
 
 
-def add_target(net, host, arch):
+def add_target(net, host, arch, port=22):
     spec = ARCH[arch]
     if spec is None:
         net.resolve[host] = [(2, '10.9.9.%d' % (1 + len(net.resolve)))]
         return
     s = dict(spec)
     s.setdefault('banner', 'SSH-2.0-OpenSSH_9.3')
-    net.add(host, 22, fakenet.peer_from_spec(s))
+    net.add(host, port, fakenet.peer_from_spec(s))
+
+
+def split_target(t):
+    h, _, p = t.partition(':')
+    return h, int(p) if p else 22
 
 
 def run_targets(hosts_archs, mode, threads, choices, gate_connections=True, policy_path=None):
+    """hosts_archs: (target as written in the file - 'host' or 'host:port' -, archetype)"""
     net = fakenet.FakeNet()
     for h, a in hosts_archs:
-        add_target(net, h, a)
+        add_target(net, split_target(h)[0], a, split_target(h)[1])
     tf = drive.tmpfile('\n'.join(h for h, _ in hosts_archs) + '\n')
     argv = [x if x is not None else policy_path for x in MODES[mode]] + ['--skip-rate-test', '--threads', str(threads), '-T', tf]
     try:
@@ -100,8 +111,8 @@ def blocks_of(out, mode):
         res = {}
         for d in arr:
             if isinstance(d, dict):
-                key = d.get('target', '').rsplit(':', 1)[0] if 'target' in d else d.get('host')
-                res.setdefault(key, []).append(d)
+                key = d.get('target', '') if 'target' in d else ('%s:%s' % (d.get('host'), d.get('port')) if 'port' in d else d.get('host'))
+                res.setdefault(norm_key(key), []).append(d)
         return res
     res = {}
     out = '\n'.join(l for l in out.split('\n') if report.strip_ansi(l) not in OOB_LINES)      # C08's recorded finding: these lines are printed out of band
@@ -118,8 +129,14 @@ def blocks_of(out, mode):
             import re
             m = re.search(r'cannot connect to (\S+) port', b) or re.search(r'scanning (\S+):\d+', b)
             key = m.group(1) if m else '?'
-        res.setdefault(key, []).append(b)
+        res.setdefault(norm_key(key), []).append(b)
     return res
+
+
+def norm_key(key):
+    """'host' and 'host:22' are one target"""
+    key = str(key)
+    return key[:-3] if key.endswith(':22') else key
 
 
 def solo(host, arch, mode, policy_path):
@@ -163,7 +180,8 @@ def eval_case(case):
     if case.get('kind') == 'real':
         return eval_real(case)
     archs, mode, threads = case['archs'], case['mode'], case['threads']
-    hosts_archs = [('t%d' % i, a) for i, a in enumerate(archs)]
+    ports = case.get('ports') or [None] * len(archs)
+    hosts_archs = [('t%d' % i if ports[i] is None else 't%d:%d' % (i, ports[i]), a) for i, a in enumerate(archs)]
     policy_path = None
     if mode.startswith('policy'):
         policy_path = drive.tmpfile(POLICY)
@@ -184,8 +202,8 @@ def eval_case(case):
             return mkres(case, nt=True, classes=['unparseable'], fails=fails)
         for h, a in hosts_archs:
             scode, sblocks, sout = solo(h, a, mode, policy_path)
-            want = (sblocks or {}).get(h)
-            have = got.get(h)
+            want = (sblocks or {}).get(norm_key(h))
+            have = got.get(norm_key(h))
             if want is None:
                 continue            # the solo run itself has no attributable block (C08's business)
             if have != want:
@@ -200,7 +218,11 @@ def eval_case(case):
     reused = any(len(x) > 1 for x in assign)
     inter = sch.interleaved() if sch else False
     nt = (reused and len(set(archs)) > 1) or inter
-    cl = ['mode:' + mode, 'threads:%d' % threads, 'n:%d' % len(archs)] + (['thread-reused'] if reused else []) + (['interleaved'] if inter else []) + (['free-running'] if sch is None else [])
+    if any(p is not None for p in ports):
+        cl0 = ['ports-in-file:' + ''.join('p' if p is not None else '-' for p in ports[:4])]
+    else:
+        cl0 = []
+    cl = cl0 + ['mode:' + mode, 'threads:%d' % min(threads, 5), 'n:%d' % min(len(archs), 5)] + (['thread-reused'] if reused else []) + (['interleaved'] if inter else []) + (['free-running'] if sch is None else [])
     return mkres(case, nt=nt, classes=cl, fails=fails[:4])
 
 
@@ -225,9 +247,13 @@ NO_SHRINK_KEYS = ('choices',)
 
 def strat_history():
     def build(t):
-        archs, mode, threads, choices, gate = t
-        return {'archs': archs, 'mode': mode, 'threads': min(threads, len(archs)), 'choices': choices, 'gate_connections': gate}
-    return st.tuples(st.lists(st.sampled_from(ORDER), min_size=2, max_size=4), st.sampled_from(['text', 'json', 'text', 'json', 'policy', 'policy-json']), st.integers(1, 3), st.lists(st.integers(0, 3), min_size=1, max_size=40), st.booleans()).map(build)
+        archs, mode, threads, choices, gate, ports = t
+        c = {'archs': archs, 'mode': mode, 'threads': min(threads, len(archs)), 'choices': choices, 'gate_connections': gate}
+        if any(p is not None for p in ports[:len(archs)]):
+            c['ports'] = ports[:len(archs)]        # some lines of the targets file carry their own port, others rely on the default
+        return c
+    return st.tuples(st.lists(st.sampled_from(ORDER), min_size=2, max_size=4), st.sampled_from(['text', 'json', 'text', 'json', 'policy', 'policy-json']), st.integers(1, 3), st.lists(st.integers(0, 3), min_size=1, max_size=40), st.booleans(),
+                     st.one_of(st.just([None] * 4), st.lists(st.sampled_from([None, None, 2222, 22, 1022]), min_size=4, max_size=4))).map(build)
 
 
 def run(ctx):
@@ -254,6 +280,14 @@ def run(ctx):
             if rng.random() < 0.5:
                 k = rng.choice([1, 2, 3])
                 cases.append({'archs': list(tr), 'mode': rng.choice(['text', 'json']), 'threads': k, 'choices': [rng.randint(0, 2) for _ in range(30)]})
+    # more targets and worker threads than any fixed-size table of per-thread state would hold: 33-40 scans in their
+    # probing phase at once (every worker is inside a scan before the first one finishes)
+    wide_arch = ['rsa1024', 'gex1024', 'terrapin', 'smallca', 'clean', 'rsa2048']
+    for i in range(3 if ctx.quick else 24):
+        n = 33 + (ctx.seed + 3 * i) % 8
+        cases.append({'archs': [wide_arch[(i + j * (1 + i % 3)) % len(wide_arch)] for j in range(n)], 'mode': ('text', 'json')[i % 2], 'threads': n + i % 3,
+                      # lock-step (every worker advances by one connection per round, so all of them are in the same phase at once) or random
+                      'choices': list(range(n)) if i % 3 != 2 else [rng.randint(0, n) for _ in range(60)], 'wide': True})
     ctx.map(cases)
     ctx.hyp('strat_history', 2500 if ctx.quick else 30000, label=1, shards=16)
     # free-running threads (no scheduler): the real pool decides
